@@ -788,9 +788,9 @@ class Columns(Widget, WidgetContainerMixin, WidgetContainerListContentsMixin):
             if weighted and weighted[0][1] == i:
                 del weighted[0]
 
-        if shared:
+        wtotal = sum(weight for weight, i in weighted)
+        if shared and wtotal:  # (zero weights only: nothing asks for the remaining space, the columns keep min_width)
             # divide up the remaining space between weighted cols
-            wtotal = sum(weight for weight, i in weighted)
             grow = shared + len(weighted) * self.min_width
             for weight, i in sorted(weighted):
                 width = max(int(grow * weight / wtotal + 0.5), self.min_width)
